@@ -398,8 +398,76 @@ func TestVerifC09Stall(t *testing.T) {
 			rep.Violation("stall/reported-as-eof", fmt.Sprintf("stall reported as %v", err), w)
 		}
 	}
+	// the period is per message, not per phase: a prefix that arrives late does not buy the body a fresh period
+	const period = time.Second
+	lateRun := func(prefixDelay time.Duration) time.Duration {
+		var pre [4]byte
+		binary.BigEndian.PutUint32(pre[:], 100)
+		rd := &vfLateReader{first: pre[:], firstDelay: prefixDelay, then: bytes.Repeat([]byte{7}, 30), block: make(chan struct{})}
+		start := time.Now()
+		_ = ReadDelimitedMessage(rd, &conformancev1.ClientCompatResponse{}, "peer", period, vfMaxSize)
+		el := time.Since(start)
+		close(rd.block)
+		return el
+	}
+	rep.Eval(1)
+	rep.DistinctKey("late-prefix-then-stall")
+	worstLate, worstCtl := time.Duration(0), time.Duration(0)
+	exceeded := 0
+	for try := 0; try < 3; try++ {
+		ctl := lateRun(0)
+		late := lateRun(700 * time.Millisecond)
+		if ctl > worstCtl {
+			worstCtl = ctl
+		}
+		if late > worstLate {
+			worstLate = late
+		}
+		if late > period+450*time.Millisecond {
+			exceeded++
+		} else {
+			break
+		}
+	}
+	wl := map[string]any{"configured_period_ms": period.Milliseconds(), "prefix_arrives_after_ms": 700, "then": "30 of 100 body bytes, then silence", "slowest_timeout_ms": worstLate.Milliseconds(), "control_without_delay_ms": worstCtl.Milliseconds()}
+	switch {
+	case worstCtl > period+450*time.Millisecond:
+		rep.Inconcl(fmt.Sprintf("late-prefix scenario: even the control took %v (machine overloaded)", worstCtl))
+	case exceeded == 3:
+		rep.Violation("stall/period-restarted-after-prefix", fmt.Sprintf("a peer whose length prefix arrives after 0.7 s and then stalls got its timeout error only after %v (three attempts), the configured period is %v", worstLate.Round(10*time.Millisecond), period), wl)
+	default:
+		rep.Count("late_prefix_within_period", 1)
+	}
 	rep.Sample(map[string]any{"message_size": 10, "stall_after_bytes": 6, "expect": "timed out ...: read 2/10 bytes of message"})
 	rep.RequireMin("stall_scenarios", 20)
+}
+
+// vfLateReader delivers `first` after a delay, then `then`, then blocks.
+type vfLateReader struct {
+	first      []byte
+	firstDelay time.Duration
+	then       []byte
+	block      chan struct{}
+	slept      bool
+}
+
+func (l *vfLateReader) Read(p []byte) (int, error) {
+	if !l.slept {
+		l.slept = true
+		time.Sleep(l.firstDelay)
+	}
+	if len(l.first) > 0 {
+		n := copy(p, l.first)
+		l.first = l.first[n:]
+		return n, nil
+	}
+	if len(l.then) > 0 {
+		n := copy(p, l.then)
+		l.then = l.then[n:]
+		return n, nil
+	}
+	<-l.block
+	return 0, io.EOF
 }
 
 // TestVerifC09Writer: what WriteDelimitedMessage / the StreamEncoders write is
